@@ -257,6 +257,13 @@ Definition pick_violation (known : list Z) (fails : list (Z * Z)) : Z * Z :=
   | [] => match fails with x :: _ => x | [] => (-1, 0) end
   end.
 
+(** check.py looks at the divergence index only when no property clause fails; a failing clause that is a
+    RECORDED finding of the module must therefore not hide a divergence of the same case: report the
+    divergence alone in that case (a new violation is still reported together with the divergence index) *)
+Definition prefer_divergence (known : list Z) (r : Z * Z * Z) : Z * Z * Z :=
+  let '(corr, prop, code) := r in
+  if (0 <=? corr) && existsb (Z.eqb code) known then (corr, -1, 0) else r.
+
 (** all elements pairwise distinct *)
 Fixpoint nodupb {A} `{EqDec A} (l : list A) : bool :=
   match l with
